@@ -11,7 +11,7 @@ from proto import ET, dec_q, dec_tens, run_driver
 from trlib import TM, rand_matrix
 
 ID = "C09"
-LEAN_FILES = ["Geo/Props/C09.lean"]
+LEAN_FILES = ["Geo/Props/C09.lean", "Geo/Props/C09b.lean"]
 RULE = ("dist: point-point (2-D/3-D, any homogeneous scale incl. negative, collections), point-line, point-plane, point-3D-line, "
         "plane-parallel line, plane-parallel plane, point-segment, point-polygon (3-D), point-polyhedron, both argument orders; incident pairs "
         "(0), exactly one point at infinity (inf); compared as dist^2 with the exact Cartesian value of the S-layer; angle: three points, "
